@@ -275,6 +275,15 @@ def mk_probes(tier, only=None):
                     P.append(RmwProbe("ptr/%s/%s/e%d" % (storage, form, esz), fn(), PT, None, src, f, res, storage, pre=pre))
                 P.append(RmwProbe("ptr/%s/xchg/e%d" % (storage, esz), fn(), PT, PT, "atomic_exchange(&CELL, v)", lambda obs, v: (v, TRUE), "old", storage,
                                   pre=pre + "\n" + HDR))
+        # the qualifier spelling `T *_Atomic p` (6.7.3): same object as _Atomic(T *)
+        PT = cref.T("long *", 64, False, rank=4)
+        for nm, src, sign, res in [("addassign", "CELL += v", 1, "new"), ("postdec", "CELL--", -1, "old")]:
+            f_ = fn()
+            p = RmwProbe("ptr/qualifier-spelling/%s" % nm, f_, PT, INT if nm == "addassign" else None, src,
+                         (lambda sign, nm: lambda obs, v: (obs + z3.BitVecVal(sign * 8, 64) * (conv(v, INT, LONG) if nm == "addassign" else z3.BitVecVal(1, 64)), TRUE))(sign, nm), res, "static")
+            p.csrc = p.csrc.replace("_Atomic(long *) cell_%s;" % f_, "long *_Atomic cell_%s;" % f_)
+            assert "long *_Atomic" in p.csrc
+            P.append(p)
     if want("cas"):
         for t in TYPES:
             P.append(CasProbe("cas/strong/%s" % t.cid, fn(), t))
